@@ -15,7 +15,7 @@ from ..entry import entry_args
 from ..models import find_impl
 from ..report import Check, fn_subject, site_subject
 from ..spec import midi
-from .. import harness as H, automata as A
+from .. import harness as H, automata as A, view
 from .common import load_configs, guarded, TRUSTED
 from . import c01, c06
 
@@ -33,36 +33,25 @@ CONSTRUCTORS = {
 }
 
 
-def pnm_value(F, roles, ch, number, value, reg, is14, dtype):
-    """build a ParameterNumberMessage abstract value from role terms"""
-    a = F.adts[PNM]
-    fields = [None] * len(a['variants'][0]['fields'])
-    v = Ag(PNM, 0, [Un(f['ty'], 'unset') for f in a['variants'][0]['fields']])
+def pnm_value(F, roles, ch, number, value, reg, is14, dtype, cons=None):
+    """an abstract ParameterNumberMessage with the given accessor values (reg / is14: constant terms)"""
+    return view.build_pnm(F, ch, number, value, int(reg[1]), int(is14[1]), dtype, cons or {})
 
-    def put(val, role, newv):
-        p = roles[(PNM, role)]
-        return invariants.set_path(val, p, newv)
-    # fields are newtypes: set the scalar inside
-    I = Interp(F, assume_invariants=False)
-    st = I.new_state()
-    v = I.top_of(st, H.adt_ty(PNM), 'x')
-    for role, term, ty in (('channel', ch, 'u8'), ('number', number, 'u16'), ('value', value, 'u16')):
-        p = roles[(PNM, role)]
-        v = invariants.set_path(v, p, Sc(term, H.INT(ty)))
-    v = invariants.set_path(v, roles[(PNM, 'is_registered')], Sc(reg, H.BOOL))
-    v = invariants.set_path(v, roles[(PNM, 'is_14_bit')], Sc(is14, H.BOOL))
-    v = invariants.set_path(v, roles[(PNM, 'data_type')], Ag(DATATYPE, H.variant_index(F, DATATYPE, dtype), ()))
-    return v
+
+def role_of(F, v, role, st):
+    return view.role_value(F, v, role, st.cons, st.ntok)
 
 
 def constructors_clause(chk, F, roles):
     cfg = F.cfg
     n = 0
-    missing_roles = [k[1] for k, v in roles.items() if k[0] == PNM and v is None]
-    chk.ob('%s/accessors/%s' % (PID, cfg), 'accessor returns a stored field', 'proved' if not missing_roles else 'refuted',
-           expected='channel/number/value/is_registered/is_14_bit/data_type each return one stored field',
-           found='no field located for: %s' % missing_roles if missing_roles else 'all located')
-    if missing_roles:
+    computed = [k[1] for k, v in roles.items() if k[0] == PNM and v is None]
+    missing = [n for n in view.ACCESSORS[PNM] if PNM + '::' + n not in F.fns]
+    chk.ob('%s/accessors/%s' % (PID, cfg), 'accessors', 'proved' if not missing else 'refuted',
+           expected='channel/number/value/is_registered/is_14_bit/data_type exist; what they return for a constructed message is decided per constructor',
+           found=('missing: %s' % missing) if missing else ('stored fields returned as they are' if not computed else 'computed from the representation: %s' % sorted(computed)),
+           nontrivial=False)
+    if missing:
         return
     for name, (reg, is14, dt) in sorted(CONSTRUCTORS.items()):
         fk = PNM + '::' + name
@@ -86,14 +75,14 @@ def constructors_clause(chk, F, roles):
             want = {'channel': H.scalar_of(args[0]).term, 'number': H.scalar_of(args[1]).term, 'value': H.scalar_of(args[2]).term,
                     'is_registered': C(reg), 'is_14_bit': C(is14)}
             for role, wt in want.items():
-                g = H.scalar_of(A.get_path(v, roles[(PNM, role)]))
+                g = H.scalar_of(role_of(F, v, role, o.st))
                 if g is None or not H.same(g.term, wt, o.st.cons):
                     status, why = 'refuted', '%s is %r, expected %s' % (role, g, T.tstr(wt))
-            g = A.get_path(v, roles[(PNM, 'data_type')])
+            g = role_of(F, v, 'data_type', o.st)
             if not isinstance(g, Ag) or H.variant_name(F, g) != dt:
                 status, why = 'refuted', 'data type %r, expected %s' % (g, dt)
             if not is14:
-                vv = vs_of(H.scalar_of(A.get_path(v, roles[(PNM, 'value')])).term, o.st.cons)
+                vv = vs_of(H.scalar_of(role_of(F, v, 'value', o.st)).term, o.st.cons)
                 if not vv.subset(VS(0, 127)):
                     status, why = 'refuted', '7-bit message with value in %r' % vv
             chk.ob(key, 'constructor fields', status, subject=fn_subject(F, fk), expected=repr((reg, is14, dt)), found=repr(v), why=why)
@@ -127,10 +116,10 @@ def shorthand_clause(chk, F, roles):
                     acc = [x.join(v) for x, v in zip(acc, vs)]
                     wantf = {'channel': args[0].term, 'number': args[1].term, 'value': args[2].term, 'is_registered': C(reg), 'is_14_bit': C(is14)}
                     for role, wt in wantf.items():
-                        g = H.scalar_of(A.get_path(o.value, roles[(PNM, role)]))
+                        g = H.scalar_of(role_of(F, o.value, role, o.st))
                         if g is None or not H.same(g.term, wt, o.st.cons):
                             status, why = 'refuted', '%s is %r' % (role, g)
-                    g = A.get_path(o.value, roles[(PNM, 'data_type')])
+                    g = role_of(F, o.value, 'data_type', o.st)
                     if not isinstance(g, Ag) or H.variant_name(F, g) != 'DataEntry':
                         status, why = 'refuted', 'data type %r' % (g,)
                     if any(not v.subset(w) for v, w in zip(vs, want)):
@@ -189,7 +178,7 @@ def encoder_clause(chk, F, roles):
 
         def ev(dt=dt, is14=is14, reg=reg, order=order, key=key):
             cons = {CH: VS(0, 15), NUM: VS(0, 16383), VAL: VS(0, 16383 if is14 else 127)}
-            selfv = pnm_value(F, roles, CH, NUM, VAL, C(reg), C(is14), dt)
+            selfv = pnm_value(F, roles, CH, NUM, VAL, C(reg), C(is14), dt, cons)
             hooks = {}
             hooks.update(H.fbu_hook())
             I = Interp(F, abstract_methods=hooks)
@@ -224,7 +213,7 @@ def encoder_clause(chk, F, roles):
         status, why = 'proved', ''
         for dt, is14 in (('DataEntry', 0), ('DataEntry', 1), ('DataIncrement', 0)):
             cons = {CH: VS(0, 15), NUM: VS(0, 16383), VAL: VS(0, 16383 if is14 else 127)}
-            selfv = pnm_value(F, roles, CH, NUM, VAL, C(1), C(is14), dt)
+            selfv = pnm_value(F, roles, CH, NUM, VAL, C(1), C(is14), dt, cons)
             I = Interp(F, abstract_methods=H.fbu_hook())
             st = I.new_state()
             st.cons.update(cons)
@@ -281,8 +270,7 @@ def run(tier, cmd):
     for cfg, F in sorted(Fs.items()):
         roles = A.msg_roles(F)
         guarded(chk, '%s/constructors/%s' % (PID, cfg), 'constructor fields', lambda F=F: constructors_clause(chk, F, roles))
-        if all(v is not None for k, v in roles.items() if k[0] == PNM):
-            guarded(chk, '%s/encoder/%s' % (PID, cfg), 'encoder table', lambda F=F: encoder_clause(chk, F, roles))
-            guarded(chk, '%s/shorthand/%s' % (PID, cfg), 'constructor fields', lambda F=F: shorthand_clause(chk, F, roles))
+        guarded(chk, '%s/encoder/%s' % (PID, cfg), 'encoder table', lambda F=F: encoder_clause(chk, F, roles))
+        guarded(chk, '%s/shorthand/%s' % (PID, cfg), 'constructor fields', lambda F=F: shorthand_clause(chk, F, roles))
         guarded(chk, '%s/invariant/%s' % (PID, cfg), 'struct invariant at construction site', lambda F=F: invariant_clause(chk, F, PNM, 'ParameterNumberMessage'))
     return chk.finish()
